@@ -419,6 +419,23 @@ pub fn c19_update_index(m: &mut Mon, ctx: &StepCtx, stats: &mut Stats, out: &mut
             }
         }
     }
+    // 6b. the same for an update triggered by the registry during validator removal / manual
+    //     redelegation: if the transaction dies inside the nested UpdateGlobalIndex, the update
+    //     did not execute although stake is bonded
+    if !o.ok && !ctx.abort_injected && both_ok && matches!(ctx.top(), Some((REGISTRY, "remove_validator")) | Some((REGISTRY, "redelegations"))) {
+        if let Some(at) = o.err_at {
+            let ugi = o.calls.iter().filter(|c| c.sender == REGISTRY && c.is_exec(HUB, "update_global_index")).find(|c| at == c.idx || o.subtree(c.idx).iter().any(|k| k.idx == at));
+            let bonded = pre.raw.as_ref().map(|r| r.total_bond_bsei_amount.u128() + r.total_bond_stsei_amount.u128()).unwrap_or(0);
+            let wired = ctx.pre.dispatcher.as_ref().map(|d| d.hub_contract == HUB && d.bsei_reward_contract == REWARD && d.swap_denoms.contains(&d.stsei_reward_denom) && d.swap_denoms.contains(&d.bsei_reward_denom)).unwrap_or(false) && pre.config.validators_registry_contract.as_deref() == Some(REGISTRY) && pre.config.reward_dispatcher_contract.as_deref() == Some(DISPATCHER);
+            if ugi.is_some() && bonded > 0 && wired && !ctx.hub_paused_pre() && o.err_kind != Some(ErrKind::Harness) {
+                stats.check("c19_must_succeed_failed");
+                let failing = &o.calls[at];
+                let zero_send = failing.sender == DISPATCHER && matches!(&failing.msg, MsgRec::BankSend { coins, .. } if coins.iter().all(|x| x.1 == 0));
+                let sig = if zero_send { "hub.UpdateGlobalIndex:must_succeed:dispatcher_zero_send" } else { "hub.UpdateGlobalIndex:must_succeed:registry_triggered" };
+                viol(out, "C19", "update_global_index_executes_when_bonded", ctx.idx, sig, format!("{:?} failed inside the UpdateGlobalIndex it triggers ({} booked): {}", ctx.top(), bonded, o.err.clone().unwrap_or_default()));
+            }
+        }
+    }
     if !o.ok {
         return;
     }
